@@ -13,6 +13,16 @@ def _finish(v, work, counters, distinct, samples, stats, rule, extra=None):
     shutil.rmtree(work, ignore_errors=True)
     return rc
 
+def _asan_pass(v, work, harness, args, nshards, tier, stats, distinct, tag="as"):
+    """The same live workload a second time in the ASan+UBSan flavour with leak detection on: what the behavioural oracle cannot see
+    (reads past a buffer that is being resumed, a response buffer outgrown, state used after its release, unreachable state)."""
+    abin = vlib.build_harness(harness, "asan")
+    aenv = dict(vlib.SAN_ENV_EXPLORE, ASAN_OPTIONS=vlib.SAN_ENV_EXPLORE["ASAN_OPTIONS"].replace("detect_leaks=0", "detect_leaks=1"))
+    res = vlib.run_resumable(abin, args, nshards, timeout=400 if tier == "quick" else 7200, work=work, env=aenv, tag=tag)
+    c, d, s, st = vlib.collect_runs(v, res, judge_report=lambda rep: rep["tool"] != "lsan" or rep.get("in_repo"))
+    distinct |= d
+    stats["asan_lsan_pass"] = dict(evaluations=int(c.get("evaluations", 0)), counts=c.get("counts", {}), **st)
+
 def run_c06(tier, seed):
     v = vlib.Verdict("C06", tier, seed, level="fault_enumeration")
     work = vlib.scratch_dir("C06")
@@ -27,6 +37,7 @@ def run_c06(tier, seed):
     c2, d2, s2, st2 = vlib.collect_runs(v, res2)
     distinct |= d2
     stats["cross_thread_write_queue"] = dict(scenarios=int(c2.get("evaluations", 0)), counts=c2.get("counts", {}), **st2)
+    _asan_pass(v, work, "writes", ["--prop", "c06", "--seed", str(seed + 29), "--cases", str(10 if tier == "quick" else 600), "--depth", "3" if tier == "quick" else "5"], 4, tier, stats, distinct)
     v.assumptions += ["socket outcomes are injected by link-time interposition of send/sendfile in the harness binary (no change to the repository)",
                       "the 'always fulfilled' half is judged at a logical point: a marker write queued after everything else has arrived at the peer"]
     return _finish(v, work, counters, distinct, samples, stats,
@@ -85,6 +96,7 @@ def run_c14(tier, seed):
                               timeout=300 if tier == "quick" else 7200, work=work, tag="t")
     c2, d2, s2, st2 = vlib.collect_runs(v, res2)
     distinct |= d2
+    _asan_pass(v, work, "server", ["--prop", "c14s", "--seed", str(seed + 31), "--cases", str(15 if tier == "quick" else 400)], 4, tier, stats, distinct)
     counters["evaluations"] = counters.get("evaluations", 0) + c2.get("evaluations", 0)
     cc = counters.setdefault("counts", {})
     for k, val in c2.get("counts", {}).items():
@@ -101,6 +113,7 @@ def run_c05(tier, seed):
     res = vlib.run_resumable(binary, ["--prop", "c05", "--seed", str(seed), "--cases", str(120 if tier == "quick" else 6000)], 12,
                              timeout=300 if tier == "quick" else 7200, work=work)
     counters, distinct, samples, stats = vlib.collect_runs(v, res)
+    _asan_pass(v, work, "server", ["--prop", "c05", "--seed", str(seed + 37), "--cases", str(25 if tier == "quick" else 1000)], 6, tier, stats, distinct)
     try:
         from checks import client as clientmod
         extra = clientmod.c05_client_requests(v, tier, seed, work)
